@@ -16,6 +16,8 @@
     (15)             by_ref() guard kept across an await on the executor thread of the reload: sequential, ((1 1) 2 0)
     (16 kind sched)  synchronous read guard on another thread released by a task queued behind the reload   ((st v) final hang)
     (17 sched)       synchronous read while the value's task holds the write lock (in the Drop of the old value)   ((st v) final hang)
+    (18 kind sched)  await vs a user's write guard on the async derived value, HEAD   ((st v polls) writer_done hang)
+    (28 kind sched)  the same before the fix
     (7 sched)        signal read vs write holding the lock      ((reader_status value) writer_status final_s)
     status: 0 = waiting at a yield point / parked, 1 = finished, 2 = blocked on a lock, 3 = panicked *)
 From Coq Require Import List ZArith NArith Bool Arith.
@@ -93,6 +95,15 @@ Definition obs_d (s : dst) : sexp :=
   | _ => Lst [Lst [Num 0; Num 0]; Num (d_val s); Num 0]
   end.
 
+Definition obs_w (s : wst) : sexp :=
+  Lst [match w_a s with
+       | UDone v => Lst [Num 1; Num v; snat (w_polls s)]
+       | UBlocked => Lst [Num 0; Num 0; snat (pred (w_polls s))]
+       | _ => Lst [Num 0; Num 0; snat (w_polls s)]
+       end;
+       Num (match w_p0 s with 2%nat => 1 | _ => 0 end)%Z;
+       sbool (match w_a s with UBlocked => true | _ => false end)].
+
 Definition run_C19 (c : sexp) : sexp :=
   match as_Z (nth_s 0 c) with
   | 0%Z => obs_await (arun Prefix (ainit (as_bools (nth_s 1 c))) (as_nats (nth_s 2 c)))
@@ -108,6 +119,8 @@ Definition run_C19 (c : sexp) : sexp :=
   | 15%Z => Lst [Lst [Num 1; Num 1]; Num 2; Num 0]
   | 16%Z => obs_h (hrun hinit (as_nats (nth_s 2 c)))
   | 17%Z => obs_d (drun dinit (as_nats (nth_s 1 c)))
+  | 18%Z => obs_w (wrun true (as_nat (nth_s 1 c)) winit (as_nats (nth_s 2 c)))
+  | 28%Z => obs_w (wrun false (as_nat (nth_s 1 c)) winit (as_nats (nth_s 2 c)))
   | 10%Z => obs_await_u (urun (uinit (as_bools (nth_s 1 c))) (as_nats (nth_s 2 c)))
   | 11%Z => obs_lock (lrun_coarse (linit [e_rerun_mt; s_set_me]) (as_nats (nth_s 2 c)))
   | 12%Z => obs_lock (lrun_coarse (linit [e_rerun_mt; s_set_me_prefix]) (as_nats (nth_s 2 c)))
